@@ -16,7 +16,7 @@
 (***************************************************************************)
 EXTENDS XFloat, Json, CSV, IOUtils, FiniteSets
 
-CONSTANTS Family      \* "arith1" | "arith2" | "cmp" | "fn" | "str"
+CONSTANTS Family      \* "arith1" | "arith2" | "cmp" | "fn" | "str" | "substr" | "pred"
 
 VARIABLES di, part, expr
 vars == <<di, part, expr>>
@@ -35,7 +35,10 @@ FDocs == <<
     <<"100000000000000000000000", "0.000001", "123456.789">>,
     <<"4000000000", "4294967296", "4294967297">>,
     <<".5", "5.", "-0">>,
-    <<"0.30000000000000004", "0.1", "1e2">> >>
+    <<"0.30000000000000004", "0.1", "1e2">>,
+    \* '~' is a placeholder the harness replaces by characters TLC cannot write (NBSP, EM SPACE, IDEOGRAPHIC SPACE, NEL,
+    \* VT, FF, ...): none of them is XPath white space, so the value is not a number
+    <<"~12", "7~", "3">> >>
 
 Lit(s)  == [t |-> "lit", s |-> s]
 NodeV(i) == [t |-> "node", i |-> i]
@@ -45,6 +48,12 @@ Neg(e)  == [t |-> "neg", e |-> e]
 Fn(f, a) == [t |-> "fn", f |-> f, a |-> a]
 Cmp(op, l, r) == [t |-> "cmp", op |-> op, l |-> l, r |-> r]
 NumStr(s) == [t |-> "numstr", s |-> s]
+Sub2(s, p) == [t |-> "sub2", s |-> s, p |-> p]
+Sub3(s, p, l) == [t |-> "sub3", s |-> s, p |-> p, l |-> l]
+Concat2(a, b) == [t |-> "cat", l |-> a, r |-> b]
+SLen(a) == [t |-> "slen", a |-> a]
+Pred(c) == [t |-> "pred", c |-> c]             \* /r/*[c], c a comparison with the context node "." as an operand
+Dot == [t |-> "dot"]
 
 LitsCore == {Lit("0.1"), Lit("0.2"), Lit("0.3"), Lit("1"), Lit("3"), Lit("0"), Lit("10"), Lit("7"),
              Lit("1.1"), Lit("0.7"), Lit("2.675"), Lit("123456.789"), Lit("0.000001"), Lit(".5"), Lit("5.")}
@@ -55,6 +64,14 @@ LitsBig  == {Lit("9223372036854775808"), Lit("18446744073709551616"), Lit("90071
 Nodes3   == {NodeV(1), NodeV(2), NodeV(3)}
 LeavesA  == LitsCore \cup LitsBig \cup Nodes3
 LeavesS  == {Lit("0.1"), Lit("0.2"), Lit("3"), Lit("7"), Lit("1.1"), Lit("9223372036854775808"), Lit("4000000000"), NodeV(1), NodeV(2)}
+
+SubStrs == {"12345", "abcdefghijkl"}
+NaNLit == Bin("div", Lit("0"), Lit("0"))
+InfLit == Bin("div", Lit("1"), Lit("0"))
+SubNums == {Lit("0"), Lit("1"), Lit("2"), Lit("3"), Lit("1.5"), Lit("2.5"), Lit("0.5"), Lit("2.6"), Lit("1.4999999999999999"),
+            Neg(Lit("1.5")), Neg(Lit("0.5")), Neg(Lit("2.5")), Neg(Lit("1")), Neg(Lit("42")), Lit("12"), Lit("13"),
+            Lit("9223372036854775808"), Neg(Lit("9223372036854775808")), Lit("10000000000000000000"), Lit("4294967297"),
+            Neg(Lit("4294967295")), NaNLit, InfLit, Neg(InfLit)}
 
 ArithOps == <<"+", "-", "*", "div", "mod">>
 CmpOps == <<"=", "!=", "<", "<=", ">", ">=">>
@@ -73,12 +90,20 @@ PoolSets ==
       [] Family = "fn"     -> <<{Fn(f, x) : f \in {"floor", "ceiling", "number"}, x \in LeavesA}
                                 \cup {Fn(f, Neg(x)) : f \in {"floor", "ceiling"}, x \in LeavesA}
                                 \cup {Fn("sum", AllV)}
-                                \cup {NumStr(s) : s \in {"0.1", " 0.3 ", "-9223372036854775809", "1e3", "0x10", "Infinity", "--1", "+1", "1 2", ""}},
+                                \cup {NumStr(s) : s \in {"0.1", " 0.3 ", "-9223372036854775809", "1e3", "0x10", "Infinity", "--1", "+1", "1 2", "", "~12", "12~", " ~ 5"}},
                                 {Fn(f, Bin(o, x, y)) : f \in {"floor", "ceiling"}, o \in {"div", "*", "-"}, x \in LeavesS, y \in LeavesS},
                                 {Bin(o, Fn("sum", AllV), x) : o \in {"+", "div", "mod"}, x \in LeavesS}>>
       [] Family = "str"    -> <<{Fn("string", x) : x \in LitsCore \cup LitsBig \cup {Fn("number", n) : n \in Nodes3}},
                                 {Fn("string", Neg(x)) : x \in LeavesA}>>
                               \o [i \in 1 .. 4 |-> {Fn("string", Bin(ArithOps[i], x, y)) : x \in LeavesS \cup LitsCore, y \in LeavesS \cup LitsCore}]
+
+      [] Family = "substr" -> <<{Sub3(s, p, l) : s \in SubStrs, p \in SubNums, l \in SubNums},
+                                {Sub2(s, p) : s \in SubStrs, p \in SubNums \cup {Bin("div", Lit("7"), Lit("2")), Bin("-", Lit("0.3"), Lit("0.1"))}},
+                                {Sub3("abcdefghijkl", Bin(o, x, y), Lit("3")) : o \in {"div", "*", "-"}, x \in LitsCore, y \in LitsCore},
+                                {Concat2(x, y) : x \in SubNums \cup LitsCore, y \in {Lit("0.1"), Bin("+", Lit("0.1"), Lit("0.2")), Bin("div", Lit("1"), Lit("3"))}},
+                                {SLen(Bin(o, x, y)) : o \in {"div", "*", "+"}, x \in LeavesS \cup LitsCore, y \in LeavesS \cup LitsCore}>>
+      [] Family = "pred"   -> [i \in 1 .. 6 |-> {Pred(Cmp(CmpOps[i], Dot, y)) : y \in LitsCore \cup LitsBig \cup Bins("+", LeavesS, LeavesS) \cup Bins("*", LeavesS, LeavesS)}
+                                                \cup {Pred(Cmp(CmpOps[i], y, Dot)) : y \in LitsCore \cup LitsBig \cup Bins("div", LeavesS, LeavesS)}]
 
 NParts == Len(PoolSets)
 
@@ -97,6 +122,12 @@ Text(e) ==
       [] e.t = "neg"  -> "-" \o Text(e.e)
       [] e.t = "fn"   -> e.f \o "(" \o Text(e.a) \o ")"
       [] e.t = "numstr" -> "number('" \o e.s \o "')"
+      [] e.t = "sub2" -> "substring('" \o e.s \o "', " \o Text(e.p) \o ")"
+      [] e.t = "sub3" -> "substring('" \o e.s \o "', " \o Text(e.p) \o ", " \o Text(e.l) \o ")"
+      [] e.t = "cat"  -> "concat(string(" \o Text(e.l) \o "), '|', string(" \o Text(e.r) \o "))"
+      [] e.t = "slen" -> "string-length(string(" \o Text(e.a) \o "))"
+      [] e.t = "pred" -> "/r/*[" \o Text(e.c) \o "]"
+      [] e.t = "dot"  -> "."
 
 (***************************************************************************)
 (* Denotation.  vals = string-values of v1 .. vn                           *)
@@ -128,6 +159,10 @@ Num(e, vals) ==
                             [] e.f = "number"  -> Num(e.a, vals)
                             [] e.f = "sum"     -> SumFrom(vals, 1, FZero(FALSE)))
 
+\* string() of a number as concat()/string-length() see it: plain notation is claimed below one million only
+StrOK(x) == FIsFin(x) => /\ FCompare("<", [x EXCEPT !.neg = FALSE], StrToF("1000000"))
+                         /\ (FIsZero(x) \/ FCompare(">=", [x EXCEPT !.neg = FALSE], StrToF("0.000001")))
+
 \* mod is claimed for non-negative integers and a non-zero divisor; sum() over numeric nodes
 RECURSIVE InScope(_, _)
 InScope(e, vals) ==
@@ -142,10 +177,10 @@ InScope(e, vals) ==
       [] e.t = "fn"  -> IF e.f = "sum" THEN \A i \in 1 .. Len(vals) : PlainNumeric(vals[i])
                         ELSE IF e.f = "string"
                         THEN /\ InScope(e.a, vals)
-                             /\ LET x == Num(e.a, vals)       \* plain notation is claimed below one million
-                                IN FIsFin(x) => /\ FCompare("<", [x EXCEPT !.neg = FALSE], StrToF("1000000"))
-                                                /\ (FIsZero(x) \/ FCompare(">=", [x EXCEPT !.neg = FALSE], StrToF("0.000001")))
+                             /\ StrOK(Num(e.a, vals))
                         ELSE InScope(e.a, vals)
+      [] e.t = "cat" -> StrOK(Num(e.l, vals)) /\ StrOK(Num(e.r, vals))
+      [] e.t = "slen" -> StrOK(Num(e.a, vals))
       [] OTHER -> TRUE
 
 \* an expression without a reference to the document is a case of the first document only
@@ -155,10 +190,30 @@ UsesDoc(e) ==
       [] e.t \in {"bin", "cmp"} -> UsesDoc(e.l) \/ UsesDoc(e.r)
       [] e.t = "neg" -> UsesDoc(e.e)
       [] e.t = "fn"  -> UsesDoc(e.a)
+      [] e.t = "cat" -> UsesDoc(e.l) \/ UsesDoc(e.r)
+      [] e.t = "slen" -> UsesDoc(e.a)
+      [] e.t = "pred" -> TRUE
       [] OTHER -> FALSE
 
+\* substring(): the characters at the positions i with round(p) <= i < round(p) + round(l)
+RECURSIVE KeepChars(_, _, _, _)
+KeepChars(s, i, lo, hi) ==
+    IF i > Len(s) THEN ""
+    ELSE LET fi == FFromNat(i)
+         IN (IF FCompare(">=", fi, lo) /\ FCompare("<", fi, hi) THEN Ch(s, i) ELSE "") \o KeepChars(s, i + 1, lo, hi)
+
+\* the comparison c with the context node (string-value v) in place of "."
+DotNum(e, v, vals) == IF e.t = "dot" THEN StrToF(v) ELSE Num(e, vals)
+
 Value(e, vals) ==
-    IF e.t = "cmp"
+    IF e.t = "sub2" THEN [t |-> "s", v |-> KeepChars(e.s, 1, FRound(Num(e.p, vals)), FInf(FALSE))]
+    ELSE IF e.t = "sub3"
+    THEN LET rp == FRound(Num(e.p, vals)) IN [t |-> "s", v |-> KeepChars(e.s, 1, rp, FAdd(rp, FRound(Num(e.l, vals))))]
+    ELSE IF e.t = "cat" THEN [t |-> "s", v |-> FToStr(Num(e.l, vals)) \o "|" \o FToStr(Num(e.r, vals))]
+    ELSE IF e.t = "slen" THEN LET x == FFromNat(Len(FToStr(Num(e.a, vals)))) IN [t |-> "n", c |-> x.c, neg |-> x.neg, m |-> x.m, e |-> x.e]
+    ELSE IF e.t = "pred"
+    THEN [t |-> "ns", v |-> {i \in 1 .. Len(vals) : FCompare(e.c.op, DotNum(e.c.l, vals[i], vals), DotNum(e.c.r, vals[i], vals))}]
+    ELSE IF e.t = "cmp"
     THEN [t |-> "b", v |->
             IF IsNodeSet(e.l) /\ IsNodeSet(e.r)
             THEN \* node-set with node-set: string comparison for = and !=, numbers for the relational operators
@@ -181,7 +236,9 @@ Value(e, vals) ==
 (***************************************************************************)
 Init == di = 0 /\ part = 0 /\ expr = NoExpr
 
-PickDoc  == di = 0 /\ \E d \in 1 .. Len(FDocs), p \in 1 .. NParts : di' = d /\ part' = p /\ expr' = NoExpr
+\* the substring family is built from literals only: one document
+DocIds == IF Family = "substr" THEN 1 .. 2 ELSE 1 .. Len(FDocs)
+PickDoc  == di = 0 /\ \E d \in DocIds, p \in 1 .. NParts : di' = d /\ part' = p /\ expr' = NoExpr
 PickExpr == di > 0 /\ expr = NoExpr /\ \E e \in PoolSets[part] : expr' = e /\ UNCHANGED <<di, part>>
 
 Next == PickDoc \/ PickExpr
